@@ -633,6 +633,7 @@ fn to_jv(v: &Value) -> Sexp {
   match v {
     Value::Null(_) => Sexp::list(vec![Sexp::atom("null")]),
     Value::Boolean(b) => Sexp::tagged("b", vec![Sexp::bool(*b)]),
+    Value::Number(n) if non_finite_text(&n.to_string()) => Sexp::list(vec![Sexp::atom("nf")]), // c19fix: ±Infinity, NaN
     Value::Number(n) => Sexp::tagged("n", vec![Sexp::str(&n.to_string())]),
     Value::String(s) => Sexp::tagged("str", vec![Sexp::str(s)]),
     Value::List(items) => Sexp::tagged("l", items.as_vec().iter().map(to_jv).collect()),
@@ -646,6 +647,7 @@ fn to_expected(v: &Value) -> J {
   match v {
     Value::Null(_) => J::Null,
     Value::Boolean(b) => J::Bool(*b),
+    Value::Number(n) if non_finite_text(&n.to_string()) => J::Null, // c19fix: JSON has no text for ±Infinity / NaN
     Value::Number(n) => J::Num(n.to_string()),
     Value::String(s) => J::Str(s.clone()),
     Value::List(items) => J::Arr(items.as_vec().iter().map(to_expected).collect()),
@@ -747,6 +749,11 @@ fn run_jsonify(cfg: &Cfg, rep: &mut Report, model: &mut Model, rng: &mut Rng) {
     G::Ctx(vec![("k 1".into(), G::Str("é/🙏".into())), ("n".into(), G::List(vec![G::Num("-1.5".into()), G::Null]))]),
     G::List(vec![]),
     G::Ctx(vec![]),
+    // c19fix: numbers that are not finite (C02 F7 seen through jsonify)
+    G::Expr("10**6000 * 10**6000".into()),
+    G::Expr("-(10**6000 * 10**6000)".into()),
+    G::Expr("10**6000 * 10**6000 - 10**6000 * 10**6000".into()),
+    G::Expr("[1, 10**6000 * 10**6000, {a: -(10**6000 * 10**6000)}]".into()),
   ];
   for g in corpus {
     if let Some(v) = to_value(&g) {
@@ -1600,6 +1607,7 @@ fn run_http(cfg: &Cfg, rep: &mut Report, model: &mut Model, rng: &mut Rng) {
   }
   run_tck(cfg, rep, model, rng, &svc, &mut server, &models[0]);
   run_parallel_clients(cfg, rep, rng, &svc, &mut server, &models);
+  run_unreadable_bodies(rep, &svc, &mut server, &models[0]); // c19fix: unreadable bodies, non-finite results
   // the service survived everything
   if !server.alive() {
     rep.disagree(Kind::ImplVsSpec, "http", "the service process ended during the run", "(whole run)", "process ended", "a running service");
@@ -2149,3 +2157,104 @@ pub fn run(cfg: &Cfg) -> Report {
   rep.model_requests = model.requests;
   rep
 }
+
+// ================================================================================================
+// c19fix BEGIN — family `unreadable`: bodies the evaluate endpoint cannot read as text, and
+// results that are not finite numbers.  C18: "Every response of the HTTP service is a well-formed
+// JSON document … failures are reported in the errors member … no request (malformed body, invalid
+// base64, UTF-8 or XML …) stops the service".  Expectations are written out here (the extractors of
+// actix-web are not part of the handler model).
+
+const SIG_UNREADABLE: &str = "a body the evaluate endpoint cannot read as text is not answered with a JSON document that has the errors member";
+const SIG_NON_FINITE: &str = "a result that is not a finite number is not answered with a JSON document";
+
+fn run_unreadable_bodies(rep: &mut Report, svc: &Service, server: &mut Server, m: &MDef) {
+  let js = Some("application/json");
+  for (path, body) in [("/definitions/clear", String::new()), ("/definitions/add", svc.content_json(&Content::Model(m.clone()))), ("/definitions/deploy", String::new())] {
+    if let Err(e) = http(server.port, "POST", path, js, body.as_bytes()) {
+      rep.disagree(Kind::ImplVsSpec, "http", "the service stopped answering", path, &e, "an answer");
+      return;
+    }
+  }
+  let path = format!("/evaluate/{}/E", path_segment(&m.name));
+  let spaces = |n: usize| -> Vec<u8> {
+    let mut v = vec![b' '; n];
+    v[0] = b'{';
+    v[n - 1] = b'}';
+    v
+  };
+  // (what, content type, body, the service may close the connection before it answers)
+  let unreadable: Vec<(&str, &str, Vec<u8>, bool)> = vec![
+    ("invalid UTF-8", "text/plain", vec![b'{', 0xff, 0xfe, b'}'], false),
+    ("invalid UTF-8 (truncated sequence)", "text/plain", vec![b'{', b'x', b':', b' ', b'"', 0xc5, b'"', b'}'], false),
+    ("invalid UTF-8 (application/json)", "application/json", vec![b'{', 0xff, 0xfe, b'}'], false),
+    ("body of 300 KiB", "text/plain", spaces(300 * 1024), true),
+    ("body of 257 KiB", "text/plain", spaces(257 * 1024), true),
+    ("unknown charset", "text/plain; charset=latin2x", b"{}".to_vec(), false),
+    ("unknown charset (no-such-encoding)", "application/json; charset=no-such-encoding", b"{x: 1}".to_vec(), false),
+  ];
+  for (what, ct, body, may_close) in &unreadable {
+    let shown = format!("POST {} ({}; {}, {} bytes)", path, what, ct, body.len());
+    rep.case(&shown, true);
+    rep.hit(&format!("unreadable:{}", what));
+    match http(server.port, "POST", &path, Some(ct), body) {
+      Ok(a) => {
+        let text = String::from_utf8_lossy(&a.body).to_string();
+        if !matches!(strict_parse(&text), Ok(j) if j.get("errors").is_some()) {
+          rep.disagree(Kind::ImplVsSpec, "response_wellformed", SIG_UNREADABLE, &shown, &format!("{} {} {}", a.status, a.content_type, text.chars().take(200).collect::<String>()), "{\"errors\":[...]}");
+        } else {
+          rep.hit("unreadable:answered-with-errors");
+        }
+      }
+      Err(e) if *may_close => {
+        rep.hit("unreadable:connection-closed");
+        rep.notes.push(format!("{}: connection ended without an answer ({})", what, e));
+      }
+      Err(e) => rep.disagree(Kind::ImplVsSpec, "http", "the service stopped answering", &shown, &e, "an answer"),
+    }
+    // the service goes on answering
+    match http(server.port, "POST", &path, Some("text/plain"), b"{x: 1}") {
+      Ok(a) if String::from_utf8_lossy(&a.body) == "{\"data\":1}" => rep.hit("unreadable:next-request-answered"),
+      Ok(a) => rep.disagree(Kind::ImplVsSpec, "http", "the request after an unreadable body is not answered as usual", &shown, &String::from_utf8_lossy(&a.body), "{\"data\":1}"),
+      Err(e) => rep.disagree(Kind::ImplVsSpec, "http", "the service stopped answering", &shown, &e, "an answer"),
+    }
+  }
+  // a body just under the limit is read (control: the family does not only see rejections)
+  match http(server.port, "POST", &path, Some("text/plain"), &{
+    let mut v = spaces(200 * 1024);
+    v.splice(1..1, b"x: 7".iter().cloned());
+    v
+  }) {
+    Ok(a) if String::from_utf8_lossy(&a.body) == "{\"data\":7}" => rep.hit("unreadable:control-200KiB-read"),
+    Ok(a) => rep.disagree(Kind::ImplVsSpec, "http", "a body of 200 KiB is not evaluated", "POST /evaluate/../E with {x: 7} padded to 200 KiB", &String::from_utf8_lossy(&a.body).chars().take(200).collect::<String>(), "{\"data\":7}"),
+    Err(e) => rep.disagree(Kind::ImplVsSpec, "http", "the service stopped answering", "200 KiB body", &e, "an answer"),
+  }
+  // results that are not finite numbers (C02 F7 seen through the service): the answer is still JSON
+  for body in [
+    "{x: 10**6000 * 10**6000}",
+    "{x: -(10**6000 * 10**6000)}",
+    "{x: 10**6000 * 10**6000 - 10**6000 * 10**6000}",
+    "{x: [1, 10**6000 * 10**6000, \"a\"]}",
+    "{x: {a: 10**6144 + 10**6144, b: 2}}",
+  ] {
+    let shown = format!("POST {} {}", path, body);
+    rep.case(&shown, true);
+    rep.hit("non-finite:request");
+    match http(server.port, "POST", &path, Some("text/plain"), body.as_bytes()) {
+      Ok(a) => {
+        let text = String::from_utf8_lossy(&a.body).to_string();
+        match strict_parse(&text) {
+          Ok(j) if j.get("data").is_some() || j.get("errors").is_some() => rep.hit("non-finite:answered-with-json"),
+          _ => rep.disagree(Kind::ImplVsSpec, "response_wellformed", SIG_NON_FINITE, &shown, &format!("{} {}", a.status, text.chars().take(200).collect::<String>()), "a JSON document with the data or the errors member"),
+        }
+      }
+      Err(e) => rep.disagree(Kind::ImplVsSpec, "http", "the service stopped answering", &shown, &e, "an answer"),
+    }
+  }
+}
+/// The `Display` text of a number that is not finite.
+fn non_finite_text(t: &str) -> bool {
+  matches!(t, "Infinity" | "-Infinity" | "NaN" | "-NaN" | "sNaN" | "-sNaN")
+}
+// c19fix END
+// ================================================================================================
